@@ -2681,7 +2681,13 @@ func (fr *Frame) initGhosts() {
 			}
 		}
 		if found <= ac.N && !ac.Optional {
-			specFail("anchor-missing: call %s#%d not found (contract line %d)", ac.Callee, ac.N, ac.Line)
+			// The annotated call is gone. The clause attached to it can no longer fire; what the contract demands
+			// of the function (exit / ensures clauses over the ghosts such clauses set) decides the verdict.
+			// GOVC_STRICT_ANCHORS=1 turns this back into a contract error (used to catch typos in new contracts).
+			if os.Getenv("GOVC_STRICT_ANCHORS") != "" {
+				specFail("anchor-missing: call %s#%d not found (contract line %d)", ac.Callee, ac.N, ac.Line)
+			}
+			fr.c().note(fmt.Sprintf("annotated call %s#%d not found in %s (contract line %d): clause skipped", ac.Callee, ac.N, fr.fn.Name(), ac.Line))
 		}
 	}
 }
